@@ -32,13 +32,5 @@ NOT_APPLICABLE = {}
 
 GCC = "gcc 12 on this machine (x86-64 SysV) is the authority; ctypes is the trusted channel to it"
 
-CHECKS = {
-    "C01": dict(engine="E1-enum", level="exploration",
-                technique="bounded exhaustive enumeration of aggregate declarations (all field sequences up to a depth over a field-kind alphabet) with gcc as layout oracle",
-                text="Every struct/union built from all field sequences up to depth 3 (thorough 4) over a 25-kind alphabet, all ordered pairs over a ~150-kind alphabet covering every integer type and bitfield width class, x packing x flexible tails is declared in cffi and compiled by gcc; sizeof/alignof/offsetof and the storage bits of every bitfield are compared.  The layout loop only branches on comparisons the alphabet straddles, so this decides the property up to the stated depth.",
-                note=GCC + "; MSVC/ARM bitfield branches are compiled out and not judged"),
-    "C02": dict(engine="E1-enum", level="exploration",
-                technique="exhaustive enumeration of every (type, bit offset, width) placement x boundary value set, compared with gcc-compiled accessors",
-                text="All 9.7k placements of a bitfield inside its storage unit for the 10 integer types (+ _Bool, + bitfields after plain bytes) x ~70 boundary values x 2 backgrounds: acceptance iff in range, read-back, byte image equal to the image the compiled C setter produces, and cross-reads in both directions.",
-                note=GCC),
-}
+# properties whose check has been reviewed and is registered in MANIFEST.json
+CLAIMED = ["C01", "C02"]
